@@ -87,6 +87,22 @@ Definition rows_sound : bool := forallb row_sound impl_rows.
 (* every transition consumes the region (self by value): use after a transition cannot compile *)
 Definition transitions_consume : bool := forallb (fun p : Z * bool => snd p) transition_by_value.
 
+(* every transition returns the state its name says: lock / unlock keep the protection parameter and set the lock
+   state; the three protection transitions set the protection and keep the lock parameter.  "Keeps" = the result
+   type names the same parameter (or the same concrete mode) as the source type in that position. *)
+Definition target_ok (r : Z * Z * Z * Z * Z) : bool :=
+  let '(t, spm, slm, tpm, tlm) := r in
+  if t =? T_Lock then (tpm =? spm) && (tlm =? 1)
+  else if t =? T_Unlock then (tpm =? spm) && (tlm =? 0)
+  else if t =? T_ProtectReadOnly then (tpm =? 1) && (tlm =? slm)
+  else if t =? T_ProtectReadWrite then (tpm =? 0) && (tlm =? slm)
+  else if t =? T_ProtectNoAccess then (tpm =? 2) && (tlm =? slm)
+  else false.
+Definition transitions_target_ok : bool :=
+  forallb target_ok transition_targets &&
+  forallb (fun t => existsb (fun r : Z * Z * Z * Z * Z => let '(t', _, _, _, _) := r in t' =? t) transition_targets)
+          [T_Lock; T_Unlock; T_ProtectReadOnly; T_ProtectReadWrite; T_ProtectNoAccess].
+
 (* streams: push methods only exist on DryocStream<Push>, pull methods only on DryocStream<Pull> *)
 Definition stream_ok : bool :=
   forallb (fun p : Z * Z =>
